@@ -31,7 +31,9 @@ CHECKS.update({
              "parameters, currying, if/switch/try, list/map literals, index, member, map-field closure calls, map/reduce/sum/size/append, min/throw) "
              "with <= 7 (thorough: 8) nodes, and every nesting of <= 4 (thorough: 5) binding/call constructs in every argument position with a maximal "
              "observer in the innermost hole, is generated with the optimizer on and off and evaluated on every argument tuple; the outcome must "
-             "equal that of an independent reference interpreter. Exhaustive within those bounds (about 11 M evaluations quick).",
+             "equal that of an independent reference interpreter. Two further spaces: every closure-calling lazy stage (and closure-free stages over them) kept "
+             "unevaluated across 9 kinds of later frames against its materialised twin, and 16 binary operators x 21 x 21 operands of EVERY sort (ill-typed "
+             "pairs included; the typed grammar builds well-typed programs only). Exhaustive within those bounds (about 11 M evaluations quick).",
         note="Trusted: the reference interpreter internal/refsem (lexically scoped, call-by-value, left-to-right; only ok-vs-error for faults) and the "
              "renderer internal/vlang. Not decided: programs larger than the bounds, floats/strings as arguments (covered by C02/C14 tables).",
         technique="bounded-exhaustive enumeration of programs x argument tuples x optimizer settings against a reference interpreter",
@@ -90,10 +92,10 @@ VS = ("Trusted: the scheduler shim verif/vsched (channel/select/WaitGroup/Mutex 
 CHECKS.update({
     "C06": dict(
         level="model_checking", engine="vsched",
-        text="The goroutine code of /repo and of the pinned iterator dependency is rewritten mechanically onto a controlled scheduler; for each of ~2850 "
-             "(thorough: ~6000, W in {2,3}) pipeline scenarios (pre-stage x parallel map/accept x post-stage x terminal, sizes around the switch to parallel "
-             "execution at item 12, failing elements in the sequential and the parallel phase, merge with stack-using operands, multiUse consumer pairs, nested "
-             "parallel stages) ALL interleavings are explored on the real code (stateless DFS, history-key pruning, no preemption bound) and every terminal "
+        text="The goroutine code of /repo and of the pinned iterator dependency is rewritten mechanically onto a controlled scheduler; for each of ~3200 "
+             "(thorough: ~6500, W in {2,3}) pipeline scenarios (pre-stage x parallel map/accept x post-stage x terminal, sizes around the switch to parallel "
+             "execution at item 12, failing elements in the sequential and the parallel phase, merge with stack-using operands, multiUse consumer pairs incl. "
+             "consumers that stop at once, shared lazy lists, groups handed across goroutines, nested parallel stages) ALL interleavings are explored on the real code (stateless DFS, history-key pruning, no preemption bound) and every terminal "
              "state is checked: outcome = strictly sequential reference, no happens-before data race on the value stacks, no deadlock, no panic on a "
              "library goroutine. A conformance pass evaluates every quick scenario on the PLAIN build (real goroutines, a really sleeping slow()) against "
              "the sequential variant. Every scenario is explored a second time WITHOUT pruning under a preemption bound of 2 (thorough: 3; capped per scenario, cap hits in the evidence). A third pass runs the same scenarios free-running on a -race build; every distinct report is classified.",
@@ -130,8 +132,8 @@ CHECKS.update({
 CHECKS.update({
     "C12": dict(
         level="model_checking", engine="vsched",
-        text="Every token sequence of <= 4 (thorough: 5) tokens over a 24-token alphabet and longer programs cut at every token or followed by trailing tokens "
-             "(every way parsing can stop early), on the generic parser and on value Generate, and ~250 (thorough: ~900) pipeline evaluations whose consumer stops "
+        text="Every token sequence of <= 4 (thorough: 5) tokens over a 25-token alphabet (incl. a superscript digit, which the tokenizer turns into two tokens) and longer programs cut at every token or followed by trailing tokens "
+             "(every way parsing can stop early), on the generic parser, on value Generate and on value Generate in comfort mode, and ~250 (thorough: ~900) pipeline evaluations whose consumer stops "
              "early (first, top, present, indexWhere, single, ~, multiUse) or whose elements fail, around the switch to parallel execution, are run on the real "
              "code under the controlled scheduler with ALL interleavings; at every terminal state every vthread must have terminated, and the number of "
              "transitions executed after the call returned must not grow when the source is doubled.",
@@ -171,7 +173,10 @@ CHECKS.update({
              "case); all contexts must agree on ok-vs-error and every fault must yield the catch value inside try; 26 runaway-recursion shapes. (b) coop build: "
              "3 fault kinds (throw, panicking operator, panicking host function) x 11 positions (upstream/downstream stage, parallel mapper/filter, terminal "
              "closure and loop body, merge comparator/operands, multiUse consumer/source) x fault in the sequential phase / first parallel item / last item, bare "
-             "and inside try, ALL schedules under the controlled scheduler: no panic may reach the top of a library goroutine, outcome error resp. catch value.",
+             "and inside try, ALL schedules under the controlled scheduler: no panic may reach the top of a library goroutine, outcome error resp. catch value; "
+             "faults in lazy lists inside the RESULT of a multiUse function (6 positions); 33 multiUse functions misusing their list; every method of the list type x "
+             "argument tuples x 6 receivers of 16 items behind a map stage that runs parallel from item 13 (the method's own Go code then runs on a goroutine "
+             "of the iterator library). (c) -race build: the scenarios of (b) free-running, every report of the race detector classified.",
         note="Trusted: process exit status and the journal for crash pinpointing; that an input IS a fault is taken from the library's own bare evaluation, except "
              "for the arithmetic/indexing faults the property names (must be errors). A 64 MB goroutine stack limit is set in the workers so that runaway "
              "recursion dies quickly. Requests to allocate 2^62 elements are excluded (resource exhaustion). " + VS,
@@ -203,14 +208,14 @@ CHECKS.update({
         level="model_checking", engine="hbfs",
         text="Explicit-state BFS over all histories of <= 4 (thorough: 5) operations - new source (literal, {}, RealMap, struct wrapper, function map, bin map), put, +, "
              "replace with a literal / with another map inside and outside the key set, eval, map, accept, combine - executed on the real value.Map objects; after "
-             "every transition every live handle is observed through 20 observers (member access, get, isAvail, ~, size, list, string, map/accept iteration, = against "
-             "rebuilt literals, one-place variants and all peers, JSON export, Go API) against a Go map fixed at creation, plus a complete storage-dump persistence "
+             "every transition every live handle is observed through 23 observers (member access, get, isAvail, ~, size, list, string, map/accept iteration, iteration "
+             "stopped at once, map/accept with a callback failing at every key in turn, = against rebuilt literals, one-place variants and all peers, JSON export, Go API) against a Go map fixed at creation, plus a complete storage-dump persistence "
              "check. States are deduplicated on (model, hidden storage-wrapper tree). 34 further sources are explored alone, and replace chains up to length 13/24 with "
              "put/+/eval/map interleaved at every position cross the depth-10 flattening and the 20-key RealMap threshold. Exhaustive within these bounds (quick "
              "260 680 / thorough 11.2 M transitions, every one executed on the implementation).",
         note="Bounded: no fixpoint of storage shapes exists (wrappers nest unboundedly); longer histories are covered only by the replace-chain families. Trusted: the "
-             "overlay accessor's dump covers every field the map code reads. 'replace' with keys outside the original and 'combine' with a missing key accept two "
-             "readings (all observers must agree); states merge different listMap entry orders.",
+             "overlay accessor's dump covers every field the map code reads. 'replace' with keys outside the original is probed once on the real code and that reading is demanded everywhere; "
+             "'combine' with a missing key accepts two readings (all observers must agree); states merge different listMap entry orders.",
         technique="explicit-state BFS over operation histories on real objects with replay from fresh sources, canonical state keys from an overlay-added storage accessor, finite-map reference model",
         design_ref="DESIGN.md §3.4, §5 C13",
     ),
@@ -278,12 +283,14 @@ CHECKS.update({
 CHECKS.update({
     "C11": dict(
         level="model_checking", engine="vsched",
-        text="46 (thorough: 50) programs whose folded constants meet run-time values (lazy, eager, nested and map-embedded list constants indexed, appended, sorted, "
+        text="46 (thorough: 50) programs and the product of 32 kinds of constant list x 5 (thorough: 41) run-time consumers whose folded constants meet run-time values (lazy, eager, nested and map-embedded list constants indexed, appended, sorted, "
              "compared, searched; constants with spare capacity; private lazy lists whose producers use the passed stack; constant maps, closures, strings; recursion; failing accesses) are generated freshly inside every execution and evaluated by T=2 and T=3 "
              "vthreads at once with equal and different arguments under the controlled scheduler. Every read/write of value.List's fields items, "
              "itemsPresent, iterable, size (generated hooks at all 73 access sites) is a scheduling point and a race-checked access, so ALL sequentially consistent "
              "interleavings at field granularity are explored (history-key pruning), and again WITHOUT pruning every schedule with <= 3 (T=3: 2; thorough +1) "
-             "preemptions; every vthread's outcome must equal its isolated outcome and no two conflicting accesses may be unordered by happens-before.",
+             "preemptions; every vthread's outcome must equal its isolated outcome and no two conflicting accesses may be unordered by happens-before. The same "
+             "programs run free-running on real goroutines, each time on a FRESH generator (state filled lazily by the first evaluations is only racy while cold): "
+             "on the plain build (outcomes) and on the -race build, where every report of Go's race detector is classified.",
         note=VS + " What a vthread reads from a hooked field enters its history as the identity of the write it observed, which keeps state-key pruning sound. "
              "The only state shared between evaluations are the function's folded constants and the generator; weak-memory effects of a racy program are out of "
              "reach, which is why the race itself is the reported violation (finding F11, known).",
@@ -299,7 +306,8 @@ CHECKS.update({
              "(12 list contents each eager/lazy-sized/lazy-unsized, 10 strings, 4 map contents in 3 storage representations, 16 scalars) with every choice of its "
              "callback pool (good callbacks, wrong arity, non-function, wrong result type, throw at the first/middle/last element) and numeric arguments "
              "{-1,0,1,2,size,size+1,1.0,\"1\"}, as function arguments and again as literals with the optimizer on; then every sort-correct chain of 2, 3 and 4 of 113 "
-             "built-in steps (quick: 2.9 M, thorough: 36.7 M evaluations, exhaustive within these bounds). The forced result must equal an independent reference "
+             "built-in steps with the flowing value as receiver and, for cross/merge/+/=/~, as argument (quick: 3.1 M, thorough: 44 M evaluations, exhaustive within "
+             "these bounds); every list step once on two lists of 6000 items. The forced result must equal an independent reference "
              "library written from the method descriptions (deep equality; permutation-without-inversion for order*/orderLess; unordered groups for "
              "groupBy*/unique*/map.list; error for misuse, failing callbacks and empty reductions).",
         note="Trusted: internal/refsem (core plus libfull.go, written from the SetMethodDescription texts and DESIGN.md Appendix B), internal/vlang rendering, the vrun "
